@@ -105,6 +105,9 @@ func (api *HTTP) getMessages(ctx context.Context, lastSeen robust.Id, msgschan c
 			if ctx.Err() != nil {
 				return
 			}
+			// The output stream was closed (FSM.Restore is replacing it):
+			// continue on the new one as soon as it is in place.
+			time.Sleep(10 * time.Millisecond)
 			continue
 		}
 		if msgs[0].Id.Id < lastSeen.Id || (!owed && msgs[0].Id.Id == lastSeen.Id) {
